@@ -65,8 +65,9 @@ func init() {
 			}
 			name, _ := unhx(parts[1])
 			line, _ := strconv.Atoi(parts[2])
-			if string(name) != "dir/file_x.soy" {
-				return &Viol{Key: "c19-file:" + c.Note, What: "the parse error does not carry the file name given for the input", Want: "dir/file_x.soy"}
+			given, _ := unhx(f[1])
+			if string(name) != string(given) {
+				return &Viol{Key: "c19-file:" + c.Note, What: "the parse error does not carry the file name given for the input", Want: string(given)}
 			}
 			if line < 1 || line > lines {
 				return &Viol{Key: "c19-range:" + c.Note, What: "the parse error's line " + parts[2] + " lies outside the input (" + strconv.Itoa(lines) + " lines)", Want: "1.." + strconv.Itoa(lines)}
@@ -262,7 +263,12 @@ func genC19parse(g *G) {
 					continue // a later quote would close the string: the fault would legitimately surface elsewhere
 				}
 				nt := faultLine > 1 && faultLine < len(out)
-				g.Add(Case{Req: req("parsefile19", hxs("dir/file_x.soy"), hxs(src), strconv.Itoa(faultLine)), NT: nt,
+				fname := "dir/file_x.soy"
+				if g.R.Intn(6) == 0 {
+					// the name is a label: whatever it contains, it is reported as given and the message shows it
+					fname = []string{"dir/100%d off.soy", "%s%v%!.soy", "a b\\c.soy", "", "évènement.soy", "%"}[g.R.Intn(6)]
+				}
+				g.Add(Case{Req: req("parsefile19", hxs(fname), hxs(src), strconv.Itoa(faultLine)), NT: nt,
 					Class: fl.name, Note: fl.name + " on line " + strconv.Itoa(faultLine) + " of " + itoa(len(out)) + "\n" + src, NoModel: true})
 				if g.R.Intn(4) == 0 {
 					// the same file with CR LF line ends (and with a lone CR inside a line): a line is what "\n" ends
